@@ -574,12 +574,20 @@ func (a *Analysis) CheckC14(rep *Report) {
 		}
 		rep.Ob("H3-single-success-path", name, okPaths == 1, pos, fmt.Sprintf("Calc has %d normal return paths (one expected: any early return skips input)", okPaths))
 		class := map[string]string{"SSE_BIN": "bytesum", "SZSE_BIN": "bytesum", "CRC16": "crc16", "CRC32": "crc32"}[svc.Name]
+		sumByTerm := false
 		// H3 whole input
 		for _, p := range paths {
 			if pathKind(p) != "ok" || shortcut[p] {
 				continue
 			}
 			whole, why := wholeInput(p, data, class == "crc32")
+			if !whole && class == "bytesum" && len(p.Ret) == 1 {
+				// the other way to see it: the returned term itself is the sum of all bytes of data.Bytes(), each once,
+				// reduced modulo 256 (a traversal in groups with a scalar tail, say)
+				if ok, _ := byteSumTerm(p, data); ok {
+					whole, sumByTerm = true, true
+				}
+			}
 			rep.Ob("H3-whole-input", name, whole, pos, "Calc does not fold every byte of its input exactly once in order: "+why)
 		}
 		iv := intervals(fn)
@@ -597,6 +605,9 @@ func (a *Analysis) CheckC14(rep *Report) {
 			rep.Ob("H4-result-in-0-255", name, !got.bottom && got.within(want), pos,
 				fmt.Sprintf("interval analysis: the returned value ranges over %s, not within [0, 255] (accumulator notes: %s)", got, strings.Join(ofl, "; ")))
 			bad := byteSumOps(fn)
+			if sumByTerm {
+				bad = nil // the term analysis has shown the value to be the byte sum modulo 256
+			}
 			rep.Ob("H4-sum-mod-256-preserved", name, len(bad) == 0, pos, "value path is not a plain byte sum modulo 256: "+strings.Join(bad, "; "))
 			rep.Sample(map[string]interface{}{"service": name, "algorithm": svc.Name, "returned_interval": got.String(), "wraps": len(iv.overflow)})
 		case "crc16":
@@ -895,4 +906,231 @@ func crcChunkWalk(p *Path, r, bb *Val) (bool, string) {
 		}
 	}
 	return true, ""
+}
+
+// byteSumTerm: the value the path returns is, by its own term, (the sum of every byte of data.Bytes(), each exactly
+// once) modulo 256, possibly widened afterwards. Accepted shape: a final reduction to eight bits (conversion to uint8,
+// `& 0xFF`, or `% 256` of a non-negative value) of an accumulator that starts at 0 and is carried through loops over
+// data.Bytes() front to back – loops that take K bytes per iteration off the front of what is left (`for len(p) >= K
+// { … p[0] … p[K-1] …; p = p[K:] }`, every one of the K bytes added once) and a final full range over the rest.
+// Wrap-around of the accumulator is harmless: 256 divides 2^k for every integer type of at least 8 bits.
+func byteSumTerm(p *Path, data *Val) (bool, string) {
+	var bb *Val
+	for _, e := range p.Events {
+		if e.Kind == EvBytes && data != nil && stripIface(e.Buf).Key() == data.Key() {
+			bb = &Val{Op: "bufbytes", ID: e.ID, Args: []*Val{e.Buf}}
+		}
+	}
+	if bb == nil {
+		return false, "it never takes data.Bytes()"
+	}
+	loops := map[int]*Event{}
+	for _, e := range p.Events {
+		if e.Kind == EvRep {
+			loops[e.LoopID] = e
+		}
+	}
+	// 1. the final reduction
+	v := stripCT(p.Ret[0])
+	reduced := false
+	for {
+		switch {
+		case v.Op == "conv" && len(v.Args) == 1 && v.Type != nil && isIntegerType(v.Type):
+			if bt, ok := v.Type.Underlying().(*types.Basic); ok && bt.Kind() == types.Uint8 {
+				reduced = true
+			} else if in := stripCT(v.Args[0]); in.Type == nil || !wideningInt(in.Type, v.Type) {
+				if !reduced {
+					return false, "narrowing conversion other than to uint8 before the value is reduced"
+				}
+			}
+			v = stripCT(v.Args[0])
+			continue
+		case v.Op == "binop" && v.Name == "&" && len(v.Args) == 2:
+			if k, ok := v.Args[1].Int64(); ok && k == 0xFF {
+				reduced = true
+				v = stripCT(v.Args[0])
+				continue
+			}
+		case v.Op == "binop" && v.Name == "%" && len(v.Args) == 2:
+			if k, ok := v.Args[1].Int64(); ok && k == 256 && v.Type != nil && !isSignedType(v.Type) {
+				reduced = true
+				v = stripCT(v.Args[0])
+				continue
+			}
+		}
+		break
+	}
+	if !reduced {
+		return false, "the value is not reduced to eight bits at the end"
+	}
+	// 2. the accumulator through the loops, outermost (last) first
+	byteOf := func(t *Val, base *Val, idx int64) bool { // t is the zero-extended byte base[idx]
+		t = stripCT(t)
+		for t.Op == "conv" && len(t.Args) == 1 {
+			in := stripCT(t.Args[0])
+			if in.Type == nil || t.Type == nil || !isIntegerType(t.Type) {
+				return false
+			}
+			if bt, ok := in.Type.Underlying().(*types.Basic); !ok || bt.Info()&types.IsUnsigned == 0 {
+				return false // a signed byte would be sign-extended
+			}
+			t = in
+		}
+		if t.Op == "init" && len(t.Args) == 1 && t.Args[0].Op == "index" {
+			t = &Val{Op: "elem", Args: t.Args[0].Args}
+		}
+		if t.Op != "elem" || len(t.Args) != 2 {
+			return false
+		}
+		return sameElement(stripCT(t.Args[0]), t.Args[1], base, mkInt(idx))
+	}
+	var rest func(acc *Val, depth int) (*Val, bool) // returns what is left of data.Bytes() before acc's loop started summing … after it
+	// walk: acc is the accumulator value after some loops; returns the slice that remains unsummed after them
+	rest = func(acc *Val, depth int) (*Val, bool) {
+		acc = stripCT(acc)
+		if depth > 6 {
+			return nil, false
+		}
+		if isZero(acc) {
+			return bb, true
+		}
+		if acc.Op != "loopout" || len(acc.Args) != 1 {
+			return nil, false
+		}
+		loop := loops[acc.ID]
+		if loop == nil || loop.Partial || len(loop.Iter) != 1 {
+			return nil, false
+		}
+		before, ok := rest(acc.Args[0], depth+1)
+		if !ok {
+			return nil, false
+		}
+		arm := loop.Iter[0]
+		lvAcc := &Val{Op: "loopvar", ID: loop.LoopID, Name: acc.Name, Args: acc.Args}
+		next := stripCT(arm.Next[acc.Name])
+		if next == nil {
+			return nil, false
+		}
+		// strip reductions kept inside the loop
+		for next.Op == "binop" && len(next.Args) == 2 && ((next.Name == "&" && isConstK(next.Args[1], 0xFF)) || (next.Name == "%" && isConstK(next.Args[1], 256) && next.Type != nil && !isSignedType(next.Type))) {
+			next = stripCT(next.Args[0])
+		}
+		// the summands: next = acc + t1 + t2 + …
+		var terms []*Val
+		var flat func(x *Val) bool
+		flat = func(x *Val) bool {
+			x = stripCT(x)
+			if x.Op == "binop" && x.Name == "+" && len(x.Args) == 2 {
+				return flat(x.Args[0]) && flat(x.Args[1])
+			}
+			terms = append(terms, x)
+			return true
+		}
+		if !flat(next) {
+			return nil, false
+		}
+		nAcc := 0
+		var bytes []*Val
+		for _, t := range terms {
+			if t.Key() == lvAcc.Key() {
+				nAcc++
+			} else {
+				bytes = append(bytes, t)
+			}
+		}
+		if nAcc != 1 || len(bytes) == 0 {
+			return nil, false
+		}
+		// (a) a full range over what is left: one byte per iteration, index = the range index
+		if loop.Bounded == "range" || loop.Bounded == "counted" {
+			if len(bytes) != 1 || !affEq(loop.Count, mkLen(before)) {
+				return nil, false
+			}
+			t := stripCT(bytes[0])
+			for t.Op == "conv" && len(t.Args) == 1 {
+				in := stripCT(t.Args[0])
+				if bt, okB := typeUnder(in.Type).(*types.Basic); !okB || bt.Info()&types.IsUnsigned == 0 {
+					return nil, false
+				}
+				t = in
+			}
+			if t.Op == "init" && len(t.Args) == 1 && t.Args[0].Op == "index" {
+				t = &Val{Op: "elem", Args: t.Args[0].Args}
+			}
+			if t.Op != "elem" || len(t.Args) != 2 || prefixBase(stripCT(t.Args[0])).Key() != prefixBase(before).Key() {
+				return nil, false
+			}
+			// the index runs 0,1,2,… (range index, or a counter from 0 in steps of one)
+			ia := affOf(t.Args[1])
+			if ia.Top || len(ia.Term) != 1 {
+				return nil, false
+			}
+			for k, c := range ia.Term {
+				lv := ia.Sym[k]
+				if c != 1 || lv.Op != "loopvar" || lv.ID != loop.LoopID || len(lv.Args) != 1 {
+					return nil, false
+				}
+				init, isC := lv.Args[0].Int64()
+				if !isC || init+ia.C != 0 {
+					return nil, false
+				}
+				if nx := arm.Next[lv.Name]; nx == nil {
+					return nil, false
+				} else if d, okD := affOf(nx).Add(affOf(lv), -1).IsConst(); !okD || d != 1 {
+					return nil, false
+				}
+			}
+			return &Val{Op: "slice", Args: []*Val{before, mkLen(before), nil, nil}, Type: before.Type}, true // nothing left
+		}
+		// (b) K bytes off the front per iteration
+		var pv *Val
+		for name, nx := range arm.Next {
+			sn := stripCT(nx)
+			if sn != nil && sn.Op == "slice" && len(sn.Args) >= 3 && sn.Args[2] == nil && sn.Args[1] != nil {
+				if b := stripCT(sn.Args[0]); b.Op == "loopvar" && b.ID == loop.LoopID && b.Name == name && len(b.Args) == 1 && stripCT(b.Args[0]).Key() == before.Key() {
+					pv = b
+				}
+			}
+		}
+		if pv == nil {
+			return nil, false
+		}
+		K, isC := stripCT(arm.Next[pv.Name]).Args[1].Int64()
+		if !isC || K <= 0 || int64(len(bytes)) != K {
+			return nil, false
+		}
+		if !condHolds(arm.Conds, mkLen(pv), ">=", mkInt(K)) {
+			return nil, false
+		}
+		seen := map[int64]bool{}
+		for _, t := range bytes {
+			hit := false
+			for k := int64(0); k < K; k++ {
+				if !seen[k] && byteOf(t, pv, k) {
+					seen[k], hit = true, true
+					break
+				}
+			}
+			if !hit {
+				return nil, false
+			}
+		}
+		return &Val{Op: "loopout", ID: loop.LoopID, Name: pv.Name, Args: pv.Args, Type: pv.Type}, true
+	}
+	left, ok := rest(v, 0)
+	if !ok {
+		return false, "the accumulator is not carried front to back over data.Bytes()"
+	}
+	if n, isC := affOf(mkLen(left)).IsConst(); !(isC && n == 0) {
+		// what is left must be empty: the last loop was a full range over the remainder
+		if sl := stripCT(left); !(sl.Op == "slice" && sl.Args[1] != nil && affEq(sl.Args[1], mkLen(sl.Args[0]))) {
+			return false, "some bytes of data.Bytes() are left unsummed"
+		}
+	}
+	return true, ""
+}
+
+func isConstK(v *Val, k int64) bool {
+	n, ok := v.Int64()
+	return ok && n == k
 }
